@@ -271,7 +271,7 @@ def _worker(args) -> dict:
 	return {'failures': rp.failures, 'stats': rp.stats}
 
 
-def replay_edges(graph: str, edges: list[dict], nproc: int = 16) -> dict:
+def replay_edges(graph: str, edges: list[dict], nproc: int = 16, pool=None) -> dict:
 	"""Build the BFS tree from the edge stream and replay every edge (one real operation per edge below the
 	split level; the split level's prefixes are re-executed per job)."""
 	init_key = None
@@ -291,8 +291,11 @@ def replay_edges(graph: str, edges: list[dict], nproc: int = 16) -> dict:
 		if r[3]:
 			for e2 in tree.get(r[2], []):
 				jobs.append((graph, tree, [r], e2, True))
-	with ProcessPoolExecutor(max_workers=nproc) as ex:
-		results = list(ex.map(_worker, jobs))
+	if pool is not None:
+		results = list(pool.map(_worker, jobs))
+	else:
+		with ProcessPoolExecutor(max_workers=nproc) as ex:
+			results = list(ex.map(_worker, jobs))
 	failures = [f for r in results for f in r['failures']]
 	stats: dict[str, int] = {}
 	for r in results:
@@ -324,14 +327,17 @@ def _walk_worker(args) -> dict:
 	return {'failures': rp.failures, 'stats': rp.stats, 'steps': len(history)}
 
 
-def replay_walks(graph: str, edges: list[dict], nproc: int = 16) -> dict:
+def replay_walks(graph: str, edges: list[dict], nproc: int = 16, pool=None) -> dict:
 	"""Random walks emitted by TranpWalk.tla (edges carry walk number and step)"""
 	walks: dict[int, list] = {}
 	for e in edges:
 		walks.setdefault(e['walk'], []).append(e)
 	jobs = [(graph, sorted(es, key=lambda e: e['step'])) for _, es in sorted(walks.items())]
-	with ProcessPoolExecutor(max_workers=nproc) as ex:
-		results = list(ex.map(_walk_worker, jobs))
+	if pool is not None:
+		results = list(pool.map(_walk_worker, jobs))
+	else:
+		with ProcessPoolExecutor(max_workers=nproc) as ex:
+			results = list(ex.map(_walk_worker, jobs))
 	failures = [f for r in results for f in r['failures']]
 	stats: dict[str, int] = {}
 	for r in results:
